@@ -22,11 +22,11 @@ structure Ep where
   port : Nat := 0
   deriving DecidableEq, Repr, Inhabited
 
-def Ep.isV4 (e : Ep) : Bool := !(e.addr.contains ':')
+def Ep.isV4 (e : Ep) : Bool := !(e.addr.toList.contains ':')
 def Ep.isDefault (e : Ep) : Bool := e.addr == "0.0.0.0" && e.port == 0
 def Ep.toString (e : Ep) : String :=
   if e.isV4 then e.addr ++ ":" ++ Nat.repr e.port else "[" ++ e.addr ++ "]:" ++ Nat.repr e.port
-def addrIsV4 (a : String) : Bool := !(a.contains ':')
+def addrIsV4 (a : String) : Bool := !(a.toList.contains ':')
 
 /-- `a.b.c.d:port` or `[v6]:port` -/
 def Ep.parse (s : String) : Option Ep :=
@@ -72,6 +72,8 @@ structure Compl where
   h     : Nat
   ec    : Ec
   extra : String := ""
+  data  : List UInt8 := []      -- bytes received (read / receive completions); what `extra` digests
+  src   : String := ""          -- sender endpoint (UDP receive)
   deriving Repr, DecidableEq
 
 /-- internal callbacks bound to internal timers -/
@@ -79,6 +81,7 @@ inductive ICb where
   | udpSendWait (sock : String)        -- deferred wait-for-write of a UDP socket
   | tcpConnectRefused (sock : String) (h : Nat)
   | resolverLookup (res : String)        -- `basic_resolver::on_lookup`
+  | composedWrite (id : Nat)             -- intermediate completion of boost::asio::async_write
   deriving Repr, DecidableEq
 
 inductive NEff where
@@ -371,7 +374,7 @@ def UdpSock.asyncReceive (u : UdpSock) (op : RecvOp) : UdpSock × List NEff :=
   | .error e => ({ u1 with recvH := none, recvNull := false },
       [.post { h := op.h, ec := e, extra := "n=0" ++ (if op.withEp then " ep=0.0.0.0:0" else "") ++ " data=-" }])
   | .ok (data, src) => ({ u1 with recvH := none, recvNull := false },
-      [.post { h := op.h, ec := .ok, extra := recvExtra op.withEp data src }])
+      [.post { h := op.h, ec := .ok, extra := recvExtra op.withEp data src, data := data, src := src }])
 
 /-- `async_wait_receive_impl(sender, handler)` -/
 def UdpSock.asyncWaitReceive (u : UdpSock) (h : Nat) : UdpSock × List NEff :=
